@@ -11,6 +11,7 @@ import json
 from io import StringIO
 from pathlib import Path
 
+from ruamel.yaml.scalarbool import ScalarBoolean
 from ruamel.yaml.comments import (
     CommentedMap, CommentedSet, CommentedSeq, TaggedScalar
 )
@@ -546,6 +547,17 @@ class Merger:
             aid += 1
         return anchor
 
+    @staticmethod
+    def _scalar_kind(node: Any) -> str:
+        """Name the kind of scalar -- if any -- a node is."""
+        if isinstance(node, (bool, ScalarBoolean)):
+            return "boolean"
+        if isinstance(node, int):
+            return "integer"
+        if isinstance(node, float):
+            return "float"
+        return "other"
+
     def _resolve_anchor_conflicts(self, rhs: Any) -> None:
         """
         Resolve anchor conflicts between this and another document.
@@ -599,7 +611,12 @@ class Merger:
                     (lhs_anchor.value == rhs_anchor.value)
                     and (lhs_anchor.tag.value == rhs_anchor.tag.value))
             else:
-                anchors_match = lhs_anchor == rhs_anchor
+                # Python takes true, 1, and 1.0 for equal; as YAML values,
+                # they differ.
+                anchors_match = (
+                    lhs_anchor == rhs_anchor
+                    and Merger._scalar_kind(lhs_anchor)
+                    == Merger._scalar_kind(rhs_anchor))
 
             if not anchors_match:
                 if conflict_mode is AnchorConflictResolutions.RENAME:
